@@ -2,6 +2,6 @@ package main
 
 import "fmt"
 
-func replayFile(path string) int { fmt.Println("replay not implemented yet:", path); return 2 }
-func selftest(args []string) int { fmt.Println("selftest not implemented yet"); return 0 }
+func replayFile(path string) int   { fmt.Println("replay not implemented yet:", path); return 2 }
+func selftest(args []string) int   { fmt.Println("selftest not implemented yet"); return 0 }
 func workerMain(args []string) int { return 2 }
